@@ -474,7 +474,7 @@ where
         let offset;
         if !received_version.is_normal() {
             packet_no = int!("packet_no");
-            if packet_no < 1 || packet_no > 64 {
+            if packet_no < 1 || packet_no >= 64 {
                 return fail("packet_no sanity check");
             }
             offset = 0;
@@ -584,7 +584,7 @@ where
                 let _: ArrayString<[u8; 0]> = str!("extra_info");
             }
             if version == ServerInfoVersion::V664 {
-                if j > MAX_CLIENTS_6_64 {
+                if j >= MAX_CLIENTS_6_64 {
                     continue;
                 } else {
                     result.received |= 1 << j;
